@@ -7,6 +7,7 @@ import ast
 
 from ..src import AnalysisError, unparse
 from ..syminterp import SymInterp, Sym, Blob, OpenSym, SymRaise
+from ..syminterp import Q as ExactQ
 from .. import qn as Q
 
 MP, MPS, CONFIGS = Q.MP, Q.MPS, Q.CONFIGS
@@ -968,3 +969,564 @@ def rdm_rule(chk, src, rule):
             chk.ob(rule, f"{qual.split('.')[1]} [rank {rank} sites]", not problems, fi.where, sorted(set(problems))[:3] or "closed networks, (ket, bra) indexing", "closed networks, (ket, bra) indexing", line=fi.node.lineno,
                    detail=f"{qual}: " + (problems[0] if problems else "") + " - a conjugated index in the ket slot gives the transpose (complex conjugate) of the density matrix, a bond joined across "
                           "layers or a skipped physical index a wrong partial trace; both are invisible for real states / adjacent sites")
+
+
+# ---------------------------------------------------------------------------------------------- the symmetry-blocked decomposition
+def svd_qn_rule(chk, src, rule):
+    """abstract run of svd_qn (blockappend / blockrecover from source) on a 4 x 3 coefficient matrix with concrete row / column labels and *symbolic* block contents: a matrix is a
+    list of column provenances (which factor of which sector's block, placed on which rows).  Economic SVD: column k of u and of v come from the same singular triple, the
+    triples are in descending order of their singular values across sectors, u's column lives on the rows of its sector and carries that sector's label, v's column lives on the
+    complementary rows with label total - sector; su == sv.  Full matrices and QR: every kept column on the rows of its sector with the sector's label, no sorting."""
+    SV = "renormalizer/mps/svd_qn.py"
+    fi = src.func(SV, "svd_qn")
+    lq, rq_, tot = [0, 1, 0, 1], [0, 1, 1], 1            # row labels, column labels, total
+    svals = {0: [5, 1], 1: [4, 2, 3]}                      # singular values per sector (sector 0: rows {0,2} x cols {1,2}; sector 1: rows {1,3} x cols {0})
+
+    class IArr(Sym):
+        """integer index array (1-d list or 2-d grid)"""
+        def __init__(self, v):
+            super().__init__("idx")
+            self.v = v
+
+        def __mul__(self, c):
+            return IArr([x * int(c) for x in self.v])
+
+        __rmul__ = __mul__
+
+        def reshape(self, *shape):
+            shape = list(shape[0]) if len(shape) == 1 and isinstance(shape[0], (list, tuple)) else list(shape)
+            if shape == [-1, 1]:
+                return IArr([[x] for x in self.v])
+            raise AnalysisError(f"reshape{tuple(shape)} of an index array")
+
+        def __add__(self, o):
+            if self.v and isinstance(self.v[0], list) and isinstance(o, IArr):
+                return IArr([[r[0] + c for c in o.v] for r in self.v])
+            raise AnalysisError("sum of index arrays outside the fragment")
+
+        def __len__(self):
+            return len(self.v)
+
+        def __iter__(self):
+            return iter(self.v)
+
+        def __getitem__(self, k):
+            r = self.v[k]
+            return IArr(r) if isinstance(r, list) else r
+
+    class LArr(Sym):
+        """label array, rows of q components"""
+        def __init__(self, rows, shape=None):
+            super().__init__("labels")
+            self.rows = [list(r) for r in rows]
+            self.shape = shape or (len(rows), len(rows[0]) if rows else 1)
+            self.ndim = len(self.shape)
+
+        def reshape(self, *shape):
+            return LArr(self.rows)
+
+        def __iter__(self):
+            return iter(self.rows)
+
+        def __len__(self):
+            return len(self.rows)
+
+        def __sub__(self, o):
+            return LArr([[a - b for a, b in zip(self.rows[0], list(o))]])
+
+        def __getitem__(self, k):
+            return self.rows[k]
+
+    class Vec(Sym):
+        """1-d numeric array"""
+        def __init__(self, v):
+            super().__init__("vec")
+            self.v, self.shape, self.ndim = list(v), (len(v),), 1
+
+        def __len__(self):
+            return len(self.v)
+
+        def __getitem__(self, k):
+            if isinstance(k, IArr):
+                return Vec([self.v[i] for i in k.v])
+            if isinstance(k, slice):
+                return Vec(self.v[k])
+            return self.v[k]
+
+        def tolist(self):
+            return list(self.v)
+
+    class PArr(Sym):
+        """matrix as a list of column provenances (tag, rows it occupies or None for 'the rows of its block')"""
+        def __init__(self, nrows, cols):
+            super().__init__("matrix")
+            self.nrows, self.cols = nrows, list(cols)
+            self.dtype = "dtype"
+
+        @property
+        def shape(self):
+            return (self.nrows, len(self.cols))
+
+        @property
+        def T(self):
+            return PArr(self.nrows, [("T",) + c for c in self.cols])      # transposed factor: columns <-> rows of the stand-in (only used as v = vt.T)
+
+        def __getitem__(self, k):
+            if isinstance(k, tuple) and len(k) == 2 and k[0] == slice(None):
+                if isinstance(k[1], slice):
+                    return PArr(self.nrows, self.cols[k[1]])
+                if isinstance(k[1], IArr):
+                    return PArr(self.nrows, [self.cols[i] for i in k[1].v])
+            raise AnalysisError(f"index {k!r} of a column-provenance matrix")
+
+        def __setitem__(self, k, val):
+            if isinstance(k, tuple) and len(k) == 2 and isinstance(k[0], IArr) and k[1] == slice(None) and isinstance(val, PArr) and len(val.cols) == len(self.cols):
+                self.cols = [c + (tuple(k[0].v),) for c in val.cols]
+                return
+            raise AnalysisError("assignment into a column-provenance matrix outside the fragment")
+
+    class Coef(Sym):
+        def __init__(self):
+            super().__init__("coef")
+            self.shape = (4, 3)
+
+        def reshape(self, *a):
+            return self
+
+        def ravel(self):
+            return self
+
+        def take(self, grid):
+            rows = sorted({g // 3 for r in grid.v for g in r})
+            cols = sorted({g % 3 for r in grid.v for g in r})
+            return Block(rows, cols)
+
+    class Block(Sym):
+        def __init__(self, rows, cols):
+            super().__init__(f"block{rows}x{cols}")
+            self.rows, self.cols, self.shape = rows, cols, (len(rows), len(cols))
+
+        def sector(self):
+            return lq[self.rows[0]]
+
+    def mask(qn, n):
+        n = list(n.rows[0]) if isinstance(n, LArr) else list(n)
+        return [list(r) == n for r in qn.rows]
+
+    def where(m):
+        return (IArr([i for i, x in enumerate(m) if x]),)
+
+    def svd(block, full_matrices=True, opt_full_matrices=True):
+        s_ = block.sector()
+        d = min(block.shape)
+        nu, nv = (block.shape[0], block.shape[1]) if full_matrices else (d, d)
+        u = PArr(block.shape[0], [("U", s_, j) for j in range(nu)])
+        vt = PArr(block.shape[1], [("V", s_, j) for j in range(nv)])
+        return u, Vec(svals[s_][:d]), Sym("vt", T=vt)
+
+    def qr(block, mode="full"):
+        s_ = block.sector()
+        d = min(block.shape)
+        return PArr(block.shape[0], [("Q", s_, j) for j in range(block.shape[0] if mode == "full" else d)]), Sym("r", T=PArr(block.shape[1], [("R", s_, j) for j in range(d if mode != "full" else block.shape[0])]))
+
+    def concatenate(xs, axis=0):
+        xs = list(xs)
+        if xs and isinstance(xs[0], PArr):
+            if axis != 1:
+                raise AnalysisError("matrices concatenated along the rows")
+            return PArr(xs[0].nrows, [c for x in xs for c in x.cols])
+        return Vec([v for x in xs for v in (x.v if isinstance(x, Vec) else x)])
+
+    def argsort(v):
+        return IArr(sorted(range(len(v.v)), key=lambda i: v.v[i]))
+    IArr.__getitem__ = lambda self, k: IArr(self.v[k]) if isinstance(k, slice) else (IArr(self.v[k]) if isinstance(self.v[k], list) else self.v[k])
+
+    class LList(Sym):
+        def __init__(self, rows):
+            super().__init__("labellist")
+            self.rows = rows
+
+        def __getitem__(self, k):
+            return LList([self.rows[i] for i in k.v]) if isinstance(k, IArr) else self.rows[k]
+
+        def tolist(self):
+            return list(self.rows)
+    npx = OpenSym("np", make=lambda t: Blob(t), prod=lambda sh: 1, where=where, zeros=lambda shape, dtype=None: PArr(shape[0], [("zero",)] * shape[1]) if isinstance(shape, (list, tuple)) else Vec([0] * int(shape)),
+                  concatenate=concatenate, allclose=lambda a, b, **k: (a.v == b.v) if isinstance(a, Vec) else True, argsort=argsort, flip=lambda x, axis=None: IArr(x.v[::-1]),
+                  array=lambda x, **k: LList(list(x)) if isinstance(x, list) else x, flatnonzero=lambda m: where(m)[0])
+    for mode, kw in (("economic SVD", {"full_matrices": False}), ("full SVD", {"full_matrices": True}), ("QR, system L", {"QR": True, "system": "L", "full_matrices": False})):
+        it = SymInterp(src, None, {"np": npx, "get_qn_mask": mask, "optimized_svd": svd, "scipy": Sym("scipy", linalg=Sym("linalg", qr=qr, rq=qr)), "set": lambda xs: sorted(set(xs)), "logger": Blob("logger")})
+        it.max_depth = 10
+        problems = []
+        try:
+            res = it.call_function(fi, [Coef(), LArr([[x] for x in lq], (4, 1)), LArr([[x] for x in rq_], (3, 1)), LArr([[tot]], (1,))], kw)
+        except (ValueError, SymRaise) as e:
+            res = None
+            problems.append(f"{type(e).__name__}: {e}")
+        if res is not None:
+            if kw.get("QR"):
+                u, ql, v, qr_l = res
+                su = sv = None
+            else:
+                u, su, ql, v, sv, qr_l = res
+            rows_of = {0: (0, 2), 1: (1, 3)}
+            cols_of = {0: (1, 2), 1: (0,)}
+
+            def lab(x):
+                return list(x.rows[0]) if isinstance(x, LArr) else list(x)
+            ucols, vcols = u.cols, v.cols
+            if len(ucols) != len(list(ql)) or len(vcols) != len(list(qr_l)):
+                problems.append(f"{len(ucols)} columns of u with {len(list(ql))} labels, {len(vcols)} columns of v with {len(list(qr_l))} labels")
+            for k_, c in enumerate(ucols):
+                if c[0] == "zero":
+                    continue
+                tag, sec, j, rows = c[0], c[1], c[2], c[-1]
+                if tuple(rows) != rows_of[sec] or lab(list(ql)[k_]) != [sec]:
+                    problems.append(f"column {k_} of u: block of sector {sec} placed on rows {rows} with label {list(ql)[k_]}")
+            for k_, c in enumerate(vcols):
+                c2 = c[1:] if c[0] == "T" else c
+                tag, sec, j, rows = c2[0], c2[1], c2[2], c[-1]
+                if tuple(rows) != cols_of[sec] or lab(list(qr_l)[k_]) != [tot - sec]:
+                    problems.append(f"column {k_} of v: block of sector {sec} placed on rows {rows} with label {list(qr_l)[k_]}, expected rows {cols_of[sec]} and label {[tot - sec]}")
+            if mode == "economic SVD" and not problems:
+                trip_u = [(c[1], c[2]) for c in ucols]
+                trip_v = [((c[1:] if c[0] == "T" else c)[1], (c[1:] if c[0] == "T" else c)[2]) for c in vcols]
+                vals = [svals[s_][j] for s_, j in trip_u]
+                if trip_u != trip_v:
+                    problems.append(f"column k of u and of v belong to different singular triples: {trip_u} vs {trip_v}")
+                if vals != sorted(vals, reverse=True) or su.v != vals or sv.v != vals:
+                    problems.append(f"singular values returned as {su.v} / {sv.v} for columns with values {vals}: not one descending order shared by u, v, s and the labels")
+        chk.ob(rule, f"svd_qn[{mode}]", not problems, fi.where, problems[:3] or "columns on the rows of their sector, labels of their sector, one descending order", "columns on the rows of their sector, labels of their sector, one descending order",
+               line=fi.node.lineno, detail="svd_qn: " + (problems[0] if problems else "") + " - vectors, singular values and labels that are not permuted together no longer belong to each other: a later prefix truncation keeps the wrong vectors")
+
+
+# ---------------------------------------------------------------------------------------------- overlap (transfer) matrices of the tangent-space equations
+def transfer_rule(chk, src, rule):
+    """abstract run of transferMat for both directions, site ranks 3 and 4, with and without a separate bra: the running matrix (bra bond, ket bond) is joined with the
+    conjugated site over the bra bond on the near side and with the plain site over the ket bond, every physical (and ancilla) index of the site is contracted with the
+    same index of its conjugate, and the result is again (bra bond, ket bond) - of the far side"""
+    from .. import ntensor as NTm
+    from ..ntensor import NT, Leg
+    fi = src.func(MPS, "transferMat")
+    for rank in (3, 4):
+        for dom in ("L", "R"):
+            for separate_bra in (False, True):
+                edges = []
+                dims = [2, 3, 5, 7][:rank - 1] + [11]
+
+                def site(tag, conj=False):
+                    return NT(tag, [Leg(("S", ax), d, conj=conj) for ax, d in enumerate(dims)], edges)
+
+                class Ch(Sym):
+                    def __init__(self, t):
+                        super().__init__("chain")
+                        self.t = t
+
+                    def __getitem__(self, k):
+                        return self.t
+                near, far = (0, rank - 1) if dom == "L" else (rank - 1, 0)
+                val = NT("val", [Leg(("V", "bra"), dims[near], conj=True), Leg(("V", "ket"), dims[near])], edges)
+                ket = Ch(site("ket"))
+                bra = Ch(site("bra", conj=True)) if separate_bra else None
+                npx = NTm.np_namespace()
+                it = SymInterp(src, None, {"np": npx, "xp": npx, "tensordot": NTm.tensordot, "moveaxis": NTm.moveaxis, "asnumpy": lambda x: x, "asxp": lambda x: x, "logger": Blob("logger")})
+                it.check_asserts = True
+                it.max_depth = 8
+                problems = []
+                try:
+                    res = it.call_function(fi, [ket, bra, dom, 1, val])
+                except (ValueError, SymRaise) as e:
+                    res = None
+                    problems.append(f"{type(e).__name__}: {e}")
+                if res is not None:
+                    got = [(l.key(), l.conj) for l in res.legs] if isinstance(res, NT) else repr(res)
+                    want = [(("S", far), True), (("S", far), False)]
+                    if got != want:
+                        problems.append(f"result axes {res.legs if isinstance(res, NT) else res}; expected (bra bond, ket bond) of the far side")
+                    ge = {frozenset([(a, ca), (b, cb)]) for a, ca, b, cb in edges}
+                    we = {frozenset([(("V", "bra"), True), (("S", near), True)]), frozenset([(("V", "ket"), False), (("S", near), False)])} | \
+                         {frozenset([(("S", ax), True), (("S", ax), False)]) for ax in range(1, rank - 1)}
+                    if ge != we:
+                        problems.append(f"contractions {sorted(map(sorted, ge))}; expected {sorted(map(sorted, we))}")
+                chk.ob(rule, f"transferMat[{dom}, rank {rank}, {'separate bra' if separate_bra else 'bra = conjugated ket'}]", not problems, fi.where, problems[:2] or "canonical <bra|ket> transfer step",
+                       "canonical <bra|ket> transfer step", line=fi.node.lineno, detail="overlap matrix kernel: " + (problems[0] if problems else "") + " - a transposed overlap matrix is only wrong for complex states")
+
+
+# ---------------------------------------------------------------------------------------------- propagate-and-compress evolvers in a free algebra
+class GQ:
+    """exact complex rational"""
+    __slots__ = ("re", "im")
+
+    def __init__(self, re=0, im=0):
+        from fractions import Fraction as Fr
+        self.re, self.im = Fr(re), Fr(im)
+
+    @staticmethod
+    def of(x):
+        from fractions import Fraction as Fr
+        if isinstance(x, GQ):
+            return x
+        if isinstance(x, complex):
+            return GQ(Fr(repr(x.real)) if x.real else 0, Fr(repr(x.imag)) if x.imag else 0)
+        if isinstance(x, float):
+            return GQ(Fr(repr(x)))
+        return GQ(Fr(x))
+
+    def __add__(self, o):
+        o = GQ.of(o)
+        return GQ(self.re + o.re, self.im + o.im)
+
+    __radd__ = __add__
+
+    def __sub__(self, o):
+        o = GQ.of(o)
+        return GQ(self.re - o.re, self.im - o.im)
+
+    def __mul__(self, o):
+        o = GQ.of(o)
+        return GQ(self.re * o.re - self.im * o.im, self.re * o.im + self.im * o.re)
+
+    __rmul__ = __mul__
+
+    def __neg__(self):
+        return GQ(-self.re, -self.im)
+
+    def __eq__(self, o):
+        o = GQ.of(o)
+        return self.re == o.re and self.im == o.im
+
+    def __hash__(self):
+        return hash((self.re, self.im))
+
+    def __bool__(self):
+        return bool(self.re or self.im)
+
+    def __repr__(self):
+        return f"({self.re}+{self.im}j)"
+
+
+def pc_evolver_rule(chk, src, rule, tableaux):
+    """abstract run of the three propagate-and-compress evolvers on states of a free algebra: a state is a linear combination of words H(t_k)...H(t_1) y with exact
+    (complex rational) coefficients, an operator application prepends its time, scale / add / compressed_sum are the algebra's operations, compression is the identity.
+    The step T is a generic rational, so that the times t0 + c_i tau of different stages and sub-steps are distinct letters.
+    (1) the general Runge-Kutta evolver, non-adaptive: one step equals the Runge-Kutta formula of its tableau, for every tableau; adaptive with scripted error estimates
+    (accepted T/3, rejected trial, accepted rest): the result is the composition of the accepted steps, each started at the time already covered;
+    (2) the hard-coded RK4 evolver equals the formula of the classical tableau; (3) the Taylor evolver equals sum_k (-i dt)^k c_k H^k y (symbolic c_k).
+    tableaux = {method: (a, b, c, stages, orders)} as proved by C19."""
+    import sympy as sp
+    import functools
+    from fractions import Fraction as Fr
+    T = Fr(7, 5)
+    MI = GQ(0, -1)
+
+    def lin(d):
+        return {k: v for k, v in d.items() if v}
+
+    class St(Sym):
+        def __init__(self, terms, cfg):
+            super().__init__("state")
+            self.terms, self.evolve_config, self.compress_config = lin(terms), cfg, Sym("cc", copy=lambda: Sym("cc2", criteria="c"), criteria="c")
+
+        def scale(self, c, inplace=False):
+            c = GQ.of(c)
+            t = lin({k: v * c for k, v in self.terms.items()})
+            if inplace:
+                self.terms = t
+                return self
+            return St(t, self.evolve_config)
+
+        def add(self, o):
+            return St({k: self.terms.get(k, GQ()) + o.terms.get(k, GQ()) for k in set(self.terms) | set(o.terms)}, self.evolve_config)
+
+        __add__ = add
+
+        def canonicalise(self, *a, **k):
+            return self
+
+        def compress(self, *a, **k):
+            return self
+
+        def copy(self):
+            return St(dict(self.terms), self.evolve_config)
+
+        @property
+        def norm(self):
+            return NormOf(self.terms, "norm")
+
+        @property
+        def mp_norm(self):
+            return NormOf(self.terms, "mp_norm")
+
+    class NormOf:
+        """the norm of a state of the algebra, by kind (the full norm, or the norm without the scalar prefactor)"""
+        def __init__(self, terms, kind):
+            self.terms, self.kind = dict(terms), kind
+
+        def __truediv__(self, o):
+            if not isinstance(o, NormOf):
+                raise AnalysisError("pc evolver: a norm divided by something that is not a norm")
+            script["ratios"].append((self, o))
+            return Ratio()
+
+    class Ratio:
+        """the relative error estimate of a trial step; the step-size controller sees the scripted verdict"""
+        def __add__(self, o):
+            return self
+
+        __radd__ = __add__
+
+        def __rtruediv__(self, o):
+            if not script["errors"]:
+                raise AnalysisError("pc evolver: more trial steps than scripted")
+            return 1.0 if script["errors"].pop(0) == 0 else 1e-12
+
+    class OpAt(Sym):
+        def __init__(self, t):
+            super().__init__(f"H({t})")
+            self.t = Fr(t)
+
+        def contract(self, st, *a, **k):
+            return St({(self.t,) + w: v for w, v in st.terms.items()}, st.evolve_config)
+
+        apply = contract
+    script = {"errors": [], "steps": [], "ratios": []}
+
+    def csum(lst, *a, **k):
+        lst = list(lst)
+        out = lst[0]
+        for x in lst[1:]:
+            out = out.add(x)
+        return St(dict(out.terms), out.evolve_config)
+
+    def rk_step(a, b_row, c, stages, y_terms, tau, t0, b_err=None):
+        """the Runge-Kutta formula in the free algebra"""
+        ks = []
+        for i in range(stages):
+            arg = dict(y_terms)
+            for j in range(i):
+                if a[i][j] != 0:
+                    for w, v in ks[j].items():
+                        arg[w] = arg.get(w, GQ()) + v * (Fr(a[i][j]) * tau)
+            ti = Fr(c[i]) * tau + t0
+            ks.append(lin({(ti,) + w: MI * v for w, v in lin(arg).items()}))
+        out = dict(y_terms)
+        for i in range(stages):
+            for w, v in ks[i].items():
+                out[w] = out.get(w, GQ()) + v * (Fr(b_row[i]) * tau)
+        if b_err is not None:
+            err = {}
+            for i in range(stages):
+                d = Fr(b_row[i]) - Fr(b_err[i])
+                if d:
+                    for w, v in ks[i].items():
+                        err[w] = err.get(w, GQ()) + v * (d * tau)
+            return lin(out), lin(err)
+        return lin(out)
+    resolve = class_resolver(src, {"Mps": MPS})
+    from .C19 import XArr
+
+    def make_it(extra=None):
+        npx = OpenSym("np", make=lambda t: Blob(t), allclose=lambda x, y, **k: x == y)
+        b_ = {"np": npx, "xp": npx, "compressed_sum": csum, "logger": Blob("logger"), "reduce": functools.reduce, "isinstance": lambda x, t: False,
+              "callable": callable, "Mpo": "Mpo", "min_abs": lambda x, y: script["steps"].pop(0)(y) if script["steps"] else y, "CompressCriteria": Sym("CompressCriteria", threshold="t", both="b", fixed="f")}
+        b_.update(extra or {})
+        it = SymInterp(src, resolve, b_)
+        it.max_depth = 12
+        return it
+    y0 = {(): GQ(1)}
+    # ---- (1) general RK evolver, every tableau, one non-adaptive step
+    fi = src.func(MPS, "Mps._evolve_prop_and_compress_tdrk")
+    for m, (a, b, c, stages, orders) in tableaux.items():
+        rk = Sym("rk_config", tableau=(XArr([list(r) for r in a]), XArr([list(r) for r in b]), XArr(list(c))), stage=stages, order=tuple(orders), method=m)
+        cfg = Sym("evolve_config", rk_config=rk, adaptive=False, check_valid_dt=lambda dt: None, guess_dt=T, adaptive_rtol=Fr(1, 1000))
+        me = St(y0, cfg)
+        me._cls = "Mps"
+        script.update(errors=[], steps=[])
+        res = make_it().call_function(fi, [me, (lambda t, *a_, **k_: OpAt(t)), T])
+        want = rk_step(a, b[0], c, stages, y0, T, 0)
+        ok = isinstance(res, St) and res.terms == want
+        chk.ob(rule, f"general RK evolver[{m}]: one step = the Runge-Kutta formula of the tableau", ok, fi.where, "differs from the formula" if not ok else "equal", "equal", line=fi.node.lineno,
+               detail=f"tableau {m!r}: the state after one non-adaptive step is not y + tau sum_i b_i k_i with k_i = -i H(t0 + c_i tau)(y + tau sum_j a_ij k_j)")
+    # ---- adaptive: accepted half step, one rejected trial, accepted rest (embedded pairs only)
+    for m, (a, b, c, stages, orders) in tableaux.items():
+        if len(orders) != 2:
+            continue
+        rk = Sym("rk_config", tableau=(XArr([list(r) for r in a]), XArr([list(r) for r in b]), XArr(list(c))), stage=stages, order=tuple(orders), method=m)
+        cfg = Sym("evolve_config", rk_config=rk, adaptive=True, check_valid_dt=lambda dt: None, guess_dt=T / 3, adaptive_rtol=Fr(1, 1000))
+        me = St(y0, cfg)
+        me._cls = "Mps"
+        # step sizes offered by min_abs(guess, remaining): T/3 (accepted), the remaining 2T/3 (rejected: huge error), the remaining 2T/3 again (accepted)
+        script.update(errors=[0, 10 ** 6, 0], steps=[lambda rem: T / 3, lambda rem: rem, lambda rem: rem], ratios=[])
+        res = make_it().call_function(fi, [me, (lambda t, *a_, **k_: OpAt(t)), T])
+        w1, e1 = rk_step(a, b[0], c, stages, y0, T / 3, 0, b[1])
+        w2, e2 = rk_step(a, b[0], c, stages, w1, 2 * T / 3, T / 3, b[1])
+        ok = isinstance(res, St) and res.terms == w2 and not script["steps"]
+        want_r = [(e1, w1), (e2, w2), (e2, w2)]
+        got_r = script["ratios"]
+        ok_r = len(got_r) == 3 and all(n.kind == "norm" and d.kind == "norm" and lin(n.terms) == wn and lin(d.terms) == wd for (n, d), (wn, wd) in zip(got_r, want_r))
+        chk.ob(rule, f"general RK evolver[{m}], adaptive: error estimate of every trial", ok_r, fi.where,
+               [(n.kind, d.kind, lin(n.terms) == wn, lin(d.terms) == wd) for (n, d), (wn, wd) in zip(got_r, want_r)] if not ok_r else "equal", "equal", line=fi.node.lineno,
+               detail="the relative error of a trial step is ||tau sum_i (b_i - b*_i) k_i|| / ||trial state||, both full norms (prefactor included)")
+        chk.ob(rule, f"general RK evolver[{m}], adaptive: accepted T/3, rejected trial, accepted 2T/3", ok, fi.where, "differs from the composition of the accepted steps" if not ok else "equal", "equal",
+               line=fi.node.lineno, detail="an adaptive run must be the composition of its accepted sub-steps, each evaluated at the time already covered (t0 + c_i tau) and started from the last "
+                                           "accepted state; a rejected trial must leave no trace")
+    # ---- (2) the hard-coded RK4 evolver
+    f4 = src.func(MPS, "Mps._evolve_prop_and_compress_tdrk4")
+    if "C_RK4" not in tableaux:
+        raise AnalysisError("tableau C_RK4 not available for the RK4 evolver")
+    a, b, c, stages, orders = tableaux["C_RK4"]
+    me = St(y0, Sym("evolve_config", adaptive=False))
+    me._cls = "Mps"
+    it4 = make_it()
+    it4.exact = True
+    res = it4.call_function(f4, [me, (lambda t, *a_, **k_: OpAt(t)), T])
+    ok = isinstance(res, St) and res.terms == rk_step(a, b[0], c, stages, y0, T, 0)
+    chk.ob(rule, "RK4 evolver = Runge-Kutta formula of the classical tableau", ok, f4.where, "differs" if not ok else "equal", "equal", line=f4.node.lineno,
+           detail="stage times c_i dt, stage increments a_{i,i-1} dt and weights b_i dt of the hard-coded evolver must be those of C_RK4 (proved by C19)")
+    # ---- (3) Taylor evolver (symbolic coefficients: small)
+    ft = src.func(MPS, "Mps._evolve_prop_and_compress")
+    order = 4
+    cs = [sp.Symbol(f"c{k}") for k in range(order + 1)]
+    Ts = sp.Symbol("T", positive=True)
+
+    class StS(Sym):
+        def __init__(self, terms, cfg):
+            super().__init__("state")
+            self.terms, self.evolve_config, self.compress_config = {k: sp.expand(v) for k, v in terms.items() if sp.expand(v) != 0}, cfg, Sym("cc", copy=lambda: Sym("cc2", criteria="c"), criteria="c")
+
+        def scale(self, c_, inplace=False):
+            t = {k: v * sp.sympify(c_) for k, v in self.terms.items()}
+            if inplace:
+                self.terms = {k: sp.expand(v) for k, v in t.items()}
+                return self
+            return StS(t, self.evolve_config)
+
+        def add(self, o):
+            return StS({k: self.terms.get(k, 0) + o.terms.get(k, 0) for k in set(self.terms) | set(o.terms)}, self.evolve_config)
+
+        __add__ = add
+
+        def canonicalise(self, *a_, **k_):
+            return self
+
+        def compress(self, *a_, **k_):
+            return self
+
+        def copy(self):
+            return StS(dict(self.terms), self.evolve_config)
+    cfg = Sym("evolve_config", taylor_config=Sym("taylor", coeff=cs), adaptive=False, check_valid_dt=lambda dt: None)
+    me = StS({0: sp.Integer(1)}, cfg)
+    me._cls = "Mps"
+    hop = Sym("H", contract=lambda st, *a_, **k_: StS({k + 1: v for k, v in st.terms.items()}, st.evolve_config))
+
+    def csum_s(lst, *a_, **k_):
+        lst = list(lst)
+        out = lst[0]
+        for x in lst[1:]:
+            out = out.add(x)
+        return out
+    res = make_it({"compressed_sum": csum_s}).call_function(ft, [me, hop, Ts])
+    want = {k: sp.expand((-sp.I * Ts) ** k * cs[k]) for k in range(order + 1)}
+    ok = isinstance(res, StS) and set(res.terms) == set(want) and all(sp.simplify(res.terms[k] - want[k]) == 0 for k in want)
+    chk.ob(rule, "Taylor evolver = sum_k (-i dt)^k c_k H^k y", ok, ft.where, {str(k): str(v) for k, v in getattr(res, "terms", {}).items()} if not ok else "equal", "equal", line=ft.node.lineno,
+           detail="term k of the Taylor propagator must be scaled by (-i dt)^k times the k-th coefficient of the configured expansion")
